@@ -119,6 +119,8 @@ def run(prop, tier, seed, configs, own, rule, maxscripts, batch=None):
                     raise Inconclusive("connsched failed: " + (e or o)[-1500:])
                 results += json.load(open(f)) or []
             for r_ in results:
+                if len(verdict.violations) >= 5:
+                    break       # enough confirmed rejections (each further one costs three long re-runs)
                 sc = scripts[r_["script"]]
                 nscripts += 1
                 distinct.add((name, tuple(sc)))
